@@ -111,3 +111,14 @@ R.contract(M + "juniper_decrypt", trusted=True,
 R.contracts[M + "juniper_nonrandom_encrypt"].trusted_ensures = [
     "implies(len(plain) >= 1, J9Valid(result) and J9Decodable(result))",
     "implies(len(plain) >= 1 and Latin1(plain), J9Dec(result) == plain)"]
+
+# _gap_decode: weighted sum of the gaps modulo 256 as one character; a list of a different length than the row is
+# refused.  The list parameter is modelled as a tuple of fixed length, one variant per group length that occurs in
+# ENCODING (2, 3, 4); the row parameter is case-split over the real table, so every (length, row) pair — matching or
+# not — is covered.  (juniper_decrypt itself stays trusted: this contract pins the callee, not the loop.)
+for _n in (2, 3, 4):
+    R.contract(M + "_gap_decode@g%d" % _n,
+               types={"gaps": Tup(*([INT] * _n)), "dec": ROW}, returns=STR, pure=True,
+               raises={"ValueError": "len(dec) != %d" % _n},
+               ensures=["len(dec) == %d" % _n, "len(result) == 1",
+                        "ord(result) == (%s) %% 256" % " + ".join("gaps[%d] * dec[%d]" % (j, j) for j in range(_n))])
